@@ -83,6 +83,15 @@ def withNoise (junk : Nat) : Nat → List Tree → List Tree
   | k, [] => noise junk k
   | k, x :: xs => noise junk k ++ x :: withNoise junk (k + 1) xs
 
+/-- separators of space-separated attribute values (also used as leading/trailing padding: 0 = none there) -/
+def listSep (k : Nat) : Str :=
+  match k % 5 with
+  | 0 => [32]
+  | 1 => [32, 32]
+  | 2 => [10]
+  | 3 => [9]
+  | _ => [13, 10, 32]
+
 def splitText (how : Nat) (s : Str) : List Tree :=
   match how % 3 with
   | 0 => [.text s]
@@ -181,7 +190,7 @@ def core (lbl : β → Str) (inh : Option Str) (P : Pat) : List (Triple β) → 
                                  href := (if a.href.isSome then a.href else m.2.1.href), src := (if a.src.isSome then a.src else m.2.1.src) }) m.2.2])
     | 2 =>
       -- two predicates, one object
-      let m := objMarkup lbl inh (nth P.form 0) (nth P.tags 1) { a1 with p := some ((a1.p.getD t1.p) ++ 32 :: (a2.p.getD t2.p)) } t1 { about := subjRef lbl a1 t1.s }
+      let m := objMarkup lbl inh (nth P.form 0) (nth P.tags 1) { a1 with p := some (listSep (P.junk + 1) ++ (a1.p.getD t1.p) ++ listSep P.junk ++ (a2.p.getD t2.p) ++ listSep (P.junk + 2)) } t1 { about := subjRef lbl a1 t1.s }
       .elem m.1 m.2.1 m.2.2
     | 3 =>
       -- s a C . s q x  on one element
